@@ -352,7 +352,7 @@ impl Hist {
 			i,
 			json!({"k": "refresh", "parent": parent, "all": update_all, "view": view}),
 			rc,
-			json!({"truth": truth}),
+			json!({"truth": truth, "unreserved_spend": self.unreserved_spend[i]}),
 		);
 	}
 	/// for the C04 oracle: for each record of wallet i, is its commitment in the UTXO set
@@ -1194,7 +1194,7 @@ impl Hist {
 				i,
 				json!({"k": "update_state", "tip": tip, "parent": parent, "outage": true, "rc": rc}),
 				rc.clone(),
-				json!({"nomodel": false, "unreserved_spend": true, "reported_updated": reported_ok}),
+				json!({"nomodel": false, "unreserved_spend": self.unreserved_spend[i], "reported_updated": reported_ok}),
 			);
 			return false;
 		}
@@ -1202,11 +1202,12 @@ impl Hist {
 		// the model follows it when it succeeded and the chain is shorter than the scan's look-back
 		let nomodel = rc != vec![0] || tip >= 100;
 		let ok = rc == vec![0];
+		let truth = self.chain_truth(i);
 		self.record(
 			i,
 			json!({"k": "update_state", "tip": tip, "parent": parent, "view": view, "chain": chain}),
 			rc,
-			json!({"nomodel": nomodel, "unreserved_spend": unreserved}),
+			json!({"nomodel": nomodel, "unreserved_spend": unreserved, "truth": truth}),
 		);
 		ok
 	}
